@@ -8,6 +8,8 @@ mod c03;
 mod c04;
 mod c05;
 mod c06;
+mod c07;
+mod c08;
 mod c09;
 mod c10;
 mod c13;
@@ -87,6 +89,8 @@ fn main() {
         "c04" => c04::run(&mut rep, &tier, seed, shard, replay.as_deref()),
         "c05" => c05::run(&mut rep, &tier, seed, shard, replay.as_deref()),
         "c06" => c06::run(&mut rep, &tier, seed, shard, replay.as_deref()),
+        "c07" => c07::run(&mut rep, &tier, seed, shard, replay.as_deref()),
+        "c08" => c08::run(&mut rep, &tier, seed, shard, replay.as_deref()),
         "c09" => c09::run(&mut rep, &tier, seed, shard, replay.as_deref()),
         "c10" => c10::run(&mut rep, &tier, seed, shard, replay.as_deref()),
         "c13" => c13::run(&mut rep, &tier, seed, shard, replay.as_deref()),
